@@ -159,7 +159,7 @@ func Parse(re string, op ParseOptions) (*RegexTree, error) {
 	p := parser{
 		options:              op.RegexOptions,
 		caps:                 make(map[int]int),
-		maintainCaptureOrder: op.MaintainCaptureOrder || (op.RegexOptions&ECMAScript) != 0,
+		maintainCaptureOrder: op.MaintainCaptureOrder || (op.RegexOptions&(ECMAScript|RE2)) != 0,
 	}
 	p.setPattern(re)
 
